@@ -32,20 +32,21 @@ type Screen struct {
 	W     int  // width in columns; 0 = unbounded
 	ONLCR bool // LF is delivered as CR LF (tty output post-processing)
 
-	rows [][]rune
-	R, C int
+	rows   [][]rune
+	R, C   int
 	Hidden bool
 
-	Wraps       int // autowraps performed
-	AboveTop    int // cursor-up requests that would have left row 0
-	Malformed   int
-	Unsupported []string
-	Ups         int  // cursor-up sequences seen
-	SGRActive   bool // last SGR was not a reset
-	SGRCount    int
-	Erases      int
-	ShowSeen    int
-	HideSeen    int
+	Wraps           int // autowraps performed
+	AboveTop        int // cursor-up requests that would have left row 0
+	Malformed       int
+	Unsupported     []string
+	Ups             int  // cursor-up sequences seen
+	SGRActive       bool // last SGR was not a reset
+	SGRCount        int
+	Erases          int
+	ErasesAtPending int // erase-to-end-of-line issued in the pending-wrap state (see above; not judged)
+	ShowSeen        int
+	HideSeen        int
 
 	state   int // 0 ground, 1 esc, 2 csi
 	csi     []rune
@@ -218,6 +219,9 @@ func (s *Screen) dispatch(params string, final rune) {
 			return
 		}
 		s.Erases++
+		if s.W > 0 && s.C >= s.W {
+			s.ErasesAtPending++
+		}
 		s.eraseRight()
 	case 'h', 'l':
 		if params != "?25" {
